@@ -3,6 +3,11 @@
 import json, subprocess
 
 BUILT = {
+ "C03": dict(level="exploration",
+   technique="grammar-based generation with random layout and comment placement + exhaustive statement adjacencies + child-process differential + native fuzzing; oracle = format(format(t)) == format(t) byte for byte, single trailing newline, bytes independent of input order and process",
+   text="Accepted texts (generated with comments in every statement position and random line layout so both same-line flags vary, every ordered pair of 35 statement shapes in two layouts, the shipped examples) are formatted twice per mode and must be byte-identical, with exactly one trailing newline in normal mode; batches are formatted in order, in a permuted order interleaved with parsing unrelated inputs (token interning), and in a child process with another map seed (map literals with 9-16 pairs included). Non-idempotence needs particular neighbouring nodes (found: comment at the end of one block followed by another block), which the adjacency and comment generators target.",
+   note="Inputs whose first formatting does not re-parse are C02's subject and skipped; the class of known finding K-C02-2 is excluded by construction (its first formatting re-parses to a different tree).",
+   ref="DESIGN.md section 3, C03"),
  "C02": dict(level="exploration",
    technique="grammar-based generation from harness-owned trees with an independent printer + exhaustive operator-position x construct pairs and statement adjacencies + native fuzzing; oracle = round trip on a canonical structural dump and equality with the intended tree",
    text="Program texts are printed from trees the harness owns (own precedence table, random layout, redundant parentheses, comments in statement positions, all literal forms), so the intended tree is known: the parser must build exactly it, and format(parse(t)) in normal and compact mode must be accepted and parse to the same canonical dump (comments dropped for compact); Function.Inspect output must parse back to the function literal. The quadratic family every-operand-position x every-construct (62x56) and every ordered pair of 35 statement shapes (top level and in a block) are enumerated completely; rapid generates nested programs; thorough adds coverage-guided fuzzing of examples/tests. Two classes are excluded by construction and reported as known findings (pinned by the repository's own tests).",
